@@ -86,6 +86,7 @@ class Pure:
     tab = {}  # key -> (var, name, args)
     byvar = {}  # var id -> (name, args, var)
     axioms = []  # sound facts about the variables (EXP > 0, stub contracts)
+    var_axioms = {}  # var id -> [facts] (relevance-filtered view used for property queries)
     counter = itertools.count()
 
     @classmethod
@@ -93,6 +94,7 @@ class Pure:
         cls.tab = {}
         cls.byvar = {}
         cls.axioms = []
+        cls.var_axioms = {}
         cls.counter = itertools.count()
 
     @classmethod
@@ -106,16 +108,39 @@ class Pure:
         cls.tab[key] = (v, name, args)
         cls.byvar[v.get_id()] = (name, args, v)
         if pos:
-            cls.axiom(v > 0)
+            cls.axiom(v > 0, v)
         elif nonneg:
-            cls.axiom(v >= 0)
+            cls.axiom(v >= 0, v)
         return v
 
     @classmethod
-    def axiom(cls, fact):
+    def axiom(cls, fact, var=None):
         cls.axioms.append(fact)
+        if var is not None:
+            cls.var_axioms.setdefault(var.get_id(), []).append(fact)
         if Ctx.cur is not None:
             Ctx.cur.solver.add(fact)
+
+    @classmethod
+    def relevant_axioms(cls, exprs):
+        """axioms of the purified variables occurring in exprs (closed under the axioms' own variables)"""
+        seen_ast, seen_var, out = set(), set(), []
+        stack = list(exprs)
+        while stack:
+            t = stack.pop()
+            k = t.get_id()
+            if k in seen_ast:
+                continue
+            seen_ast.add(k)
+            if z3.is_const(t):
+                if k in cls.byvar and k not in seen_var:
+                    seen_var.add(k)
+                    for f in cls.var_axioms.get(k, []):
+                        out.append(f)
+                        stack.append(f)
+            else:
+                stack.extend(t.children())
+        return out
 
     @classmethod
     def lookup(cls, t):
@@ -153,7 +178,11 @@ def EXP(t):
     if hit is not None and hit[0] == "LOG":
         # EXP(LOG(u)) = u for u > 0: the repo only takes logs of positive quantities; stated assumption
         return hit[1][0]
-    return Pure.app("EXP", [t], pos=True)
+    new = ("EXP", t.get_id()) not in Pure.tab
+    v = Pure.app("EXP", [t], pos=True)
+    if new:
+        Pure.axiom(z3.Implies(t == 0, v == 1), v)
+    return v
 
 
 def LOG(t):
@@ -170,7 +199,11 @@ def LOG(t):
     hit = Pure.lookup(t)
     if hit is not None and hit[0] == "EXP":
         return hit[1][0]
-    return Pure.app("LOG", [t])
+    new = ("LOG", t.get_id()) not in Pure.tab
+    v = Pure.app("LOG", [t])
+    if new:
+        Pure.axiom(z3.Implies(t == 1, v == 0), v)
+    return v
 
 
 def SQRT(t):
@@ -184,7 +217,7 @@ def SQRT(t):
     new = ("SQRT", t.get_id()) not in Pure.tab
     v = Pure.app("SQRT", [t], nonneg=True)
     if new:
-        Pure.axiom(v * v == t)
+        Pure.axiom(v * v == t, v)
     return v
 
 
@@ -380,11 +413,16 @@ class SReal:
     def __truediv__(a, b):
         bt = lift(b)
         hazard(bt)
+        if is_num(a.t) and num_value(a.t) == 0:
+            return SReal(a.t)  # 0 / b = 0 wherever b != 0 (recorded hazard); z3 does not fold this
         return SReal(a.t / bt)
 
     def __rtruediv__(a, b):
         hazard(a.t)
-        return SReal(lift(b) / a.t)
+        bt = lift(b)
+        if is_num(bt) and num_value(bt) == 0:
+            return SReal(bt)
+        return SReal(bt / a.t)
 
     def __neg__(a):
         return SReal(-a.t)
